@@ -186,11 +186,46 @@ def filter_cases(run, docs_, n):
             run.disagree({"filter": nss, "files": paths}, mo, io)
 
 
+def multi_file_cases(run, docs_, n):
+    """several documents parsed together: the output lists every document's models, document after document
+    (in the order the files are read: sorted by path), also when two documents declare the same model URI"""
+    rng = run.rng
+    for i in range(n):
+        sel = rng.sample(docs_, min(len(docs_), rng.randint(2, 4)))
+        if rng.random() < 0.5:
+            # make sure two of them declare the same model URI
+            same = [x for x in docs_ if x[0]["models"] and sel[0][0]["models"] and x[0]["models"][0]["uri"] == sel[0][0]["models"][0]["uri"] and x[1] != sel[0][1]]
+            if same:
+                sel = sel + [rng.choice(same)]
+        sel = list({p: (b, p, info) for b, p, info in sel}.values())
+        paths = [p for _, p, _ in sel]
+        rng.shuffle(paths)
+        uris = [m["uri"] for b, _, _ in sel for m in b["models"]]
+        run.case({"multi": [os.path.basename(os.path.dirname(p)) + "/" + os.path.basename(p) for p in paths]}, nontrivial=len(set(uris)) < len(uris), tag="multi" + (":shared-uri" if len(set(uris)) < len(uris) else ""))
+        pr = P.impl_parse_files(list(paths))
+        if "err" in pr:
+            run.count("multi:unparseable")
+            continue
+        by_path = {p: b for b, p, _ in sel}
+        want = [m for p in sorted(paths) for m in by_path[p]["models"]]
+        got = [{"uri": m["uri"], "version": m["version"], "publication_date": m["publication_date"],
+                "required": [{"uri": r["uri"], "version": r["version"], "publication_date": r["publication_date"]} for r in m["required_models"]]}
+               for m in pr["models"]]
+        if got != want:
+            run.violation({"files": {p: by_path[p]["text"] for p in sorted(paths)}},
+                          {"what": "parse_xml_files over several documents does not list every document's models as declared", "impl": got, "expected": want,
+                           "call": "opcua_tools.parse_xml_files(files)['models']"})
+            return
+
+
 def explore(run):
     thorough = run.tier == "thorough"
     with minibase.Scratch() as sc:
         docs_ = doc_cases(run, sc, 6000 if thorough else 180)
         if run.full() or not docs_:
+            return
+        multi_file_cases(run, docs_, 1500 if thorough else 60)
+        if run.full():
             return
         filter_cases(run, docs_, 5000 if thorough else 200)
 
